@@ -19,6 +19,7 @@ From TS Require Import Spec.C10SwGrammar.
 From TS Require Proofs.C10_SWGrammarTok Proofs.C10_SWGrammarParse Proofs.C10_SWGrammarDecl Proofs.C10_SWGrammar Proofs.C10_SWGrammarFile.
 From TS Require Import Spec.C10ScGrammar.
 From TS Require Proofs.C10_SCGrammarTok Proofs.C10_SCGrammarParse Proofs.C10_SCGrammar Proofs.C10_SCGrammarFile.
+From TS Require Proofs.C10_GOGrammarTagged Proofs.C10_GOGrammarIR Proofs.C10_GOGrammarIR2.
 
 (* ---------------------------------------------------------------- the lexers *)
 (* the lexer never looks below the bracket stack it started with: a text that is balanced on its own
@@ -536,11 +537,11 @@ Theorem C10_go_file_grammar_complete :
 Proof. exact Proofs.C10_GOGrammarParse.go_file_ok. Qed.
 Print Assumptions C10_go_file_grammar_complete.
 
-(* Layout layer, whole files, PARTIAL (covered: version comment, package clause, the import declaration in its three forms,
-   structs with type parameters and tagged members, aliases, constants, unit enums = a type and a constant group; MISSING: tagged
-   enums (GOTagged: key type, constant group, struct, UnmarshalJSON / MarshalJSON, accessors, constructors - their parser side,
-   decl_func / Neutral, is proved, their text is only validated by the check and by the witness below) and the step from the IR
-   (go_decl_of) to these declarations): under any version line without a line end, any package name that is an identifier and
+(* Layout layer, whole files (the name is kept from the time when tagged enums were missing: since c10_gog_decl_ok (GOTagged e) is
+   c10_gog_tagged_ok e and no longer False, this IS the complete layout theorem, restated as C10_go_layout_grammar below; covered:
+   version comment, package clause, the import declaration in its three forms, structs with type parameters and tagged members,
+   aliases, constants, unit enums = a type and a constant group, tagged enums; the step from the IR (go_decl_of) to these
+   declarations is C10_grammar_go_partial): under any version line without a line end, any package name that is an identifier and
    not a keyword, any import paths printable between double quotes, the text of ANY list of such declarations that are well-formed
    for the grammar - names identifiers that are not keywords; doc lines without a line end; JSON keys and wire names key-shaped;
    type trees whose applied names are such names and whose leaves / verbatim parts are types of the grammar (TyText); a decimal
@@ -1113,3 +1114,119 @@ Theorem C10_scala_default_rejected :
     contains_sub (lit "x: String = _") text = true /\ c10_sc_recognise text = None.
 Proof. exact Proofs.C10_SCGrammarFile.scala_default_rejected. Qed.
 Print Assumptions C10_scala_default_rejected.
+
+(* Layout layer, ONE declaration of ANY form, tagged enums included: the text of a declaration that is well-formed for the grammar
+   (c10_gog_decl_ok; for a tagged enum, c10_gog_tagged_ok: the struct name, the key type, the two field names, the receiver name,
+   every variant constant, the accessor method of every variant that carries something and every helper-struct reference are
+   identifiers that are no Go keyword; wire names, tag and content keys are key-shaped; a tuple variant's content type is a type
+   tree of the grammar; doc lines have no line end) is, from a line start and up to a line start, the token stream of at least one
+   declaration each of which the declaration parser consumes up to its semicolon: for a tagged enum the key type, the constant
+   group, the struct with its raw-string tag and its `interface{}` field, UnmarshalJSON and MarshalJSON (bodies: balanced token
+   runs, with the raw-string tags of the anonymous structs and one `case` per variant), one accessor per variant with content,
+   one constructor per variant. *)
+Theorem C10_go_decl_layout_grammar :
+  forall d : go_decl, Proofs.C10_GOGrammar.c10_gog_decl_ok d ->
+    exists tds : list (list c10_gtok),
+      Proofs.C10_GOGrammarSemi.CSeg false (go_render_decl d) (Proofs.C10_GOGrammarParse.decls_toks tds) false /\
+      Forall Proofs.C10_GOGrammarParse.DeclToks tds /\ (1 <= List.length tds)%nat.
+Proof. exact Proofs.C10_GOGrammarTagged.go_render_decl_gram. Qed.
+Print Assumptions C10_go_decl_layout_grammar.
+
+(* Layout layer, whole files, ALL declaration forms (the statement of C10_go_layout_grammar_partial, whose predicate now covers
+   tagged enums): header, imports and the text of any list of well-formed declarations are accepted, with at least one declaration
+   per item.  Proofs/C10_GOGrammarFile.v: C10_go_layout_nonvacuous / C10_go_layout_tagged_text exhibit five such declarations, one
+   of them a tagged enum with a unit, two tuple (one by pointer) and a struct variant, accepted as 17 declarations. *)
+Theorem C10_go_layout_grammar :
+  forall (nv : bool) (version package : str) (imports : list str) (ds : list go_decl),
+    Proofs.C10Lex.c10_line_ok version = true -> Proofs.C10_GOGrammarSemi.c10_go_name_ok package = true ->
+    forallb c10_instr_ok imports = true -> Forall Proofs.C10_GOGrammar.c10_gog_decl_ok ds ->
+    exists n : nat,
+      c10_go_recognise (Proofs.C10_GOGrammarFile.go_header nv version package ++ go_write_all_imports imports ++
+                        List.concat (map go_render_decl ds)) = Some n /\ (List.length ds <= n)%nat.
+Proof. exact Proofs.C10_GOGrammarFile.go_decls_recognised. Qed.
+Print Assumptions C10_go_layout_grammar.
+
+(* Whole files, from the IR, PARTIAL (superseded by C10_grammar_go below, which adds (a); covered: structs, aliases, constants, unit
+   enums, any type_mappings / type overrides that are
+   types of the grammar; MISSING: (a) algebraic = tagged enums at the decision layer - c10_gog_item_ok is False for them; their
+   layout is C10_go_decl_layout_grammar, what is not proved is that go_enum_decls_of yields a c10_gog_tagged_ok declaration - and
+   (b) non-empty uppercase_acronyms): for every program of dom_C10 and every admissible configuration (the hypotheses of
+   C10_lex_go), strengthened by what the grammar needs -
+     c10_gog_cfg_ok: uppercase_acronyms is empty; every type_mappings value is the text of a type of the grammar (TyText: it
+       tokenises, as an open fragment after which a line end becomes a semicolon, to a Type of GGr); the package name is an
+       identifier and no keyword (c10_go_cfg_ok allows `a.b-c`, which is no PackageClause);
+     c10_gog_dom: no printed name is a Go keyword - struct (serde name), generic parameters, alias and enum (Rust name), unit-enum
+       constants (enum ++ variant), every type name referred to (the finding class C10-go-keyword-name is outside); the exported
+       field name to_pascal_case(field) and the constant name to_pascal_case(const) are identifiers (a name made of underscores
+       and digits is outside: C10-digit-name); a Go type override is the text of a type of the grammar; a unit enum has unit
+       variants only (anything else is go.rs:301's panic: no text) -
+   the recogniser accepts the generated file and finds at least one declaration per item. *)
+Theorem C10_grammar_go_partial :
+  forall (uc : unicode) (cfg : go_config) (pd : parsed) (text : str),
+    unicode_ok uc -> Proofs.C10_GOFile.c10_go_cfg_ok cfg = true -> Proofs.C10_GOGrammarIR.c10_gog_cfg_ok cfg ->
+    dom_C10 CGO pd = true -> Proofs.C10_GOGrammarIR.c10_gog_dom pd ->
+    go_generate uc cfg pd = Ok text ->
+    exists n : nat, c10_go_recognise text = Some n /\ (List.length (items_of pd) <= n)%nat.
+Proof. exact Proofs.C10_GOGrammarIR.go_generate_recognised_partial. Qed.
+Print Assumptions C10_grammar_go_partial.
+
+(* its hypotheses are satisfiable: the program of the witness without its algebraic enum (a documented generic struct with string,
+   optional, slice, array, DateTime, mapped and map-of-generic-application members and a dashed key, a generic alias, a unit enum,
+   two constants) under the configuration of the witness (type_mappings to `string` and `[]byte`) meets them, and its file is
+   accepted as 6 declarations *)
+Theorem C10_grammar_go_partial_witness :
+  unicode_ok uc_exec /\ Proofs.C10_GOFile.c10_go_cfg_ok Proofs.C10_GOGrammarFile.gg_cfg = true /\
+  Proofs.C10_GOGrammarIR.c10_gog_cfg_ok Proofs.C10_GOGrammarFile.gg_cfg /\ dom_C10 CGO Proofs.C10_GOGrammarIR.gi_prog = true /\
+  Proofs.C10_GOGrammarIR.c10_gog_dom Proofs.C10_GOGrammarIR.gi_prog /\
+  go_generate uc_exec Proofs.C10_GOGrammarFile.gg_cfg Proofs.C10_GOGrammarIR.gi_prog = Ok Proofs.C10_GOGrammarIR.gi_text /\
+  c10_go_recognise Proofs.C10_GOGrammarIR.gi_text = Some 6%nat /\
+  contains_sub (lit "type Person[T any, U any] struct {") Proofs.C10_GOGrammarIR.gi_text = true /\
+  contains_sub (lit "ColorDarkBlue Color = ""dark-blue""") Proofs.C10_GOGrammarIR.gi_text = true.
+Proof. exact Proofs.C10_GOGrammarIR.C10_grammar_go_partial_nonvacuous. Qed.
+Print Assumptions C10_grammar_go_partial_witness.
+
+(* Whole files, from the IR, ALL items (algebraic enums included), for an EMPTY uppercase_acronyms list (what remains open is the
+   extension to alphanumeric acronym lists with the letter-case relation of Proofs/C10_GOAcr.v): the hypotheses of
+   C10_grammar_go_partial, with c10_gog_dom2 = c10_gog_dom on structs / aliases / constants / unit enums and, for an algebraic
+   enum E with tag key t and content key c (P = to_pascal_case t):
+     E is no keyword; the tag field P and the content field to_camel_case c are identifiers that are no keyword (excluded: a tag
+       key made of underscores / digits / dashes; a CONTENT KEY THAT IS A GO KEYWORD - `content = "type"` prints the field
+       `type interface{}`: the finding class C10-go-keyword-name extends to it, the computable class c10_go_kw_class of
+       Spec/C10GoGrammar.v does not look at the content key); the key type E ++ P ++ "s" and every variant constant
+       E ++ P ++ "Variant" ++ V are names (always so when E, P, V are identifiers: stated, not derived);
+     a variant V that carries something is no keyword (it names the accessor `func (e E) V() ...`); a tuple variant's type refers
+       to no keyword; a struct variant's helper struct E ++ V ++ "Inner" is a name, its generic parameters are no keywords and its
+       fields are as the fields of a struct;
+   the receiver name (first character of E, lower-cased) is derived: a one-letter identifier is no keyword.
+   The recogniser accepts the generated file - version comment, package clause, import declaration(s), every declaration with its
+   helper structs, UnmarshalJSON / MarshalJSON, accessors and constructors - and finds at least one declaration per item. *)
+Theorem C10_grammar_go :
+  forall (uc : unicode) (cfg : go_config) (pd : parsed) (text : str),
+    unicode_ok uc -> Proofs.C10_GOFile.c10_go_cfg_ok cfg = true -> Proofs.C10_GOGrammarIR.c10_gog_cfg_ok cfg ->
+    dom_C10 CGO pd = true -> Proofs.C10_GOGrammarIR2.c10_gog_dom2 pd ->
+    go_generate uc cfg pd = Ok text ->
+    exists n : nat, c10_go_recognise text = Some n /\ (List.length (items_of pd) <= n)%nat.
+Proof. exact Proofs.C10_GOGrammarIR2.go_generate_recognised. Qed.
+Print Assumptions C10_grammar_go.
+
+(* its hypotheses are satisfiable: the whole program of C10_grammar_go_witness (generic struct, generic alias, unit enum, algebraic
+   enum with unit / tuple / optional-tuple / struct variants, two constants) under the configuration of that witness is in the
+   domain of C10_grammar_go; its file is the one accepted there as 19 declarations *)
+Theorem C10_grammar_go_in_domain :
+  unicode_ok uc_exec /\ Proofs.C10_GOFile.c10_go_cfg_ok Proofs.C10_GOGrammarFile.gg_cfg = true /\
+  Proofs.C10_GOGrammarIR.c10_gog_cfg_ok Proofs.C10_GOGrammarFile.gg_cfg /\ dom_C10 CGO Proofs.C10_GOGrammarFile.gg_prog = true /\
+  Proofs.C10_GOGrammarIR2.c10_gog_dom2 Proofs.C10_GOGrammarFile.gg_prog /\
+  go_generate uc_exec Proofs.C10_GOGrammarFile.gg_cfg Proofs.C10_GOGrammarFile.gg_prog = Ok Proofs.C10_GOGrammarFile.gg_text /\
+  c10_go_recognise Proofs.C10_GOGrammarFile.gg_text = Some 19%nat.
+Proof. exact Proofs.C10_GOGrammarIR2.C10_grammar_go_nonvacuous. Qed.
+Print Assumptions C10_grammar_go_in_domain.
+
+(* the hypothesis of C10_grammar_go on the content key excludes real inputs, and the computable class known_C10_go_grammar does NOT
+   predict them: an algebraic enum with `tag = "kind", content = "type"` is in dom_C10, in no class of known_C10 and in no class of
+   known_C10_go_grammar, its Go struct has the field `type interface{}`, and the recogniser rejects the file (a gap of the finding
+   class C10-go-keyword-name found by the proof of C10_grammar_go) *)
+Theorem C10_go_keyword_content_key_refuted :
+  exists cfg pd text, dom_C10 CGO pd = true /\ known_C10 CGO [] pd = [] /\ known_C10_go_grammar pd = [] /\
+    go_generate uc_exec cfg pd = Ok text /\ contains_sub (lit "type interface{}") text = true /\ c10_go_recognise text = None.
+Proof. exact Proofs.C10_GOGrammarIR2.go_keyword_content_key_refuted. Qed.
+Print Assumptions C10_go_keyword_content_key_refuted.
